@@ -20,16 +20,25 @@ AllClasses == DOMAIN ActualName
 
 DefaultReg == [types |-> <<"IntString", "FloatString", "BooleanString">>,
                repl  |-> {<<"IntString", "FloatString">>}]
-RegAdd(r, cls, replaces) == [types |-> Append(r.types, cls),
-                             repl  |-> r.repl \cup {<<x, cls>> : x \in replaces}]
-RegRemove(r, cls) == [types |-> SelectSeq(r.types, LAMBDA x : x # cls),     \* list.remove: first occurrence; names are unique
-                      repl  |-> {p \in r.repl : p[1] # cls /\ p[2] # cls}]
+\* Idempotent = TRUE: registering a class that is registered already changes nothing but the replacement pairs (the repaired code);
+\* FALSE: the class is appended once more (the code as it was: MC_StrTypes then violates Unique and NeverDisabled after a removal)
+RegAddW(r, cls, replaces, idempotent) ==
+  [types |-> IF idempotent /\ cls \in ToSet(r.types) THEN r.types ELSE Append(r.types, cls),
+   repl  |-> r.repl \cup {<<x, cls>> : x \in replaces}]
+RegAdd(r, cls, replaces) == RegAddW(r, cls, replaces, TRUE)
+\* list.remove: the FIRST occurrence only (a class registered twice stays registered once)
+RegRemove(r, cls) ==
+  LET idx == {i \in DOMAIN r.types : r.types[i] = cls}
+      first == IF idx = {} THEN 0 ELSE CHOOSE i \in idx : \A j \in idx : i <= j
+  IN [types |-> IF first = 0 THEN r.types ELSE SubSeq(r.types, 1, first - 1) \o SubSeq(r.types, first + 1, Len(r.types)),
+      repl  |-> {p \in r.repl : p[1] # cls /\ p[2] # cls}]
 \* remove_by_name: every class whose own name or whose actual type's name equals `name`
 RECURSIVE RemoveAll(_, _)
 RemoveAll(r, S) == IF S = {} THEN r ELSE LET c == CHOOSE c \in S : TRUE IN RemoveAll(RegRemove(r, c), S \ {c})
 RegRemoveByName(r, name) ==
   RemoveAll(r, {c \in ToSet(r.types) : c = name \/ (c \in AllClasses /\ ActualName[c] = name)})
-RegDatetime(r) == RegAdd(RegAdd(RegAdd(r, "IsoDateString", {}), "IsoTimeString", {}), "IsoDatetimeString", {})
+RegDatetimeW(r, idem) == RegAddW(RegAddW(RegAddW(r, "IsoDateString", {}, idem), "IsoTimeString", {}, idem), "IsoDatetimeString", {}, idem)
+RegDatetime(r) == RegDatetimeW(r, TRUE)
 
 EnvOf(r, acc) == [reg |-> r.types, repl |-> r.repl, acc |-> acc, long |-> {}, dkf |-> {}, ndkr |-> 0, dkrm |-> <<>>]
 
